@@ -703,7 +703,7 @@ def closedB (v : Variant) (R : List S) : Bool :=
     threads to completion ends with both calls finished and coherent results -/
 def goodB (v : Variant) (init : S) (R : List S) : Bool :=
   R.contains init && closedB v R &&
-  R.all (fun s => bothDone (finish v s) && coherent init (finish v s) && twoGets init (finish v s))
+  R.all (fun s => bothDone (finish v s) && coherent init (finish v s) && twoGets init (finish v s) && addedLive (finish v s))
 
 private theorem run_mem_of_closed {v : Variant} {R : List S} (hc : closedB v R = true) :
     ∀ (sched : List Bool) (s : S), s ∈ R → runS v s sched ∈ R := by
@@ -738,7 +738,36 @@ theorem c14_two_threads (init : S) (hi : init ∈ inits) (sched : List Bool) :
   obtain ⟨⟨hmem, hclosed⟩, hall⟩ := hg
   have := (List.all_eq_true.1 hall) _ (run_mem_of_closed hclosed sched init hmem)
   simp only [Bool.and_eq_true] at this
-  exact ⟨this.1.1, this.1.2, this.2⟩
+  exact ⟨this.1.1.1, this.1.1.2, this.1.2⟩
+
+/-- **An added object stays THE live object, under every schedule.**  If an `add()` of one of the two threads returned
+    normally, then afterwards the instance's cache holds exactly the object that was added, that object is bound to the
+    store, and a retrieval by the other thread that returned an object returned that very object - never a second copy. -/
+theorem c14_added_object_stays_live (init : S) (hi : init ∈ inits) (sched : List Bool) :
+    addedLive (finish .fixed (runS .fixed init sched)) = true := by
+  have hg := (List.all_eq_true.1 c14_reachable_sets_closed) init hi
+  simp only [goodB, Bool.and_eq_true, List.contains_iff_mem] at hg
+  obtain ⟨⟨hmem, hclosed⟩, hall⟩ := hg
+  have := (List.all_eq_true.1 hall) _ (run_mem_of_closed hclosed sched init hmem)
+  simp only [Bool.and_eq_true] at this
+  exact this.2
+
+/-- the protocol of the code (source bound under the lock) is what `stepT .fixed` runs -/
+theorem c14_add_proto_is_fixed (s : S) (sched : List Bool) : runA .sourceUnderLock s sched = runS .fixed s sched := by
+  induction sched generalizing s with
+  | nil => rfl
+  | cons t r ih => simp only [runA, runS, stepA]; exact ih _
+
+/-- **Why the source is bound inside the `with` block**: with that one statement behind the block, on the schedule
+    add₀: start acquire insert release | get₁: start acquire contains getitem insert release | add₀: bind
+    the retrieval finds the added object cached but not yet bound, takes it for another store's, returns a fresh copy and
+    overwrites the cache entry - `add()` returns normally and there are two live replicas.  (The oracle's finer scheduler
+    replays exactly this against the code.) -/
+theorem c14_source_after_release_two_copies :
+    let s := runA .sourceAfterRelease (mk false none false false .add .get)
+      [false, false, false, false, true, true, true, true, true, true, false]
+    s.t0.res = .unit ∧ s.t1.res = .ref .l1 ∧ s.cache = some .l1 ∧ addedLive s = false := by
+  decide
 
 /-- In the words of the property: two threads retrieve a stored identifier through one instance — whatever the cache
     held before, under any schedule both get an object, and it is the same object. -/
@@ -774,5 +803,9 @@ example : (finish .fixed (runS .fixed (mk true none false false .get .get)
 example : (finish .fixed (runS .fixed (mk false none false false .add .get) [false, false, true, true])).t1.res = .ref .x0 := by
   decide
 example : (finish .fixed (runS .fixed (mk false none false false .add .get) [true, false])).t1.res = .keyError := by decide
+-- the schedule that breaks the late-source protocol, under the protocol of the code: the retrieval waits and gets the added object
+example : (runA .sourceUnderLock (mk false none false false .add .get)
+    [false, false, false, false, true, true, true, true, true, true, false]).t1.res = .ref .x0 := by decide
+example : addedLive (finish .fixed (runS .fixed (mk false none false false .add .get) [false, false, true, true])) = true := by decide
 
 end Basyx.FileStore.Conc
